@@ -197,6 +197,12 @@ def gen_case(seed, idx, tier="quick"):
         "chromosome_relative_coordinates": mode != "chunk",
         "raise_on_reserved_attributes": True,
     }
+    if mode == "chunk" and not args["add_sequences"] and not parse_leg and rng.random() < 0.6:
+        # a collection that lives on a sequence chunk exported in CHROMOSOME coordinates (the default of the writer; only
+        # possible without the FASTA section): rows and phases are those of the chromosome view.  Writer leg only: gene and
+        # feature-collection identifiers are digests of the CHUNK-relative location (a C07 matter), so a re-parsed file -
+        # which knows no chunk - re-exports other IDs
+        args["chromosome_relative_coordinates"] = True
     if not parse_leg and rng.random() < 0.2:
         # GFF3-reserved keys used as free qualifiers: ID / Name / Parent must be dropped (with a warning) when the caller
         # asks not to raise; the other reserved keys keep their case
